@@ -64,7 +64,9 @@ var menu = []ser{
 	{"c", "many", manyTags, "", []float64{6}},
 	{"g", "a", []string{"a/b:c d"}, "", []float64{10}},
 	{"c", "Z", []string{"unnamed:u", "x", "peer:10.0.0.1:8080"}, "src2", []float64{9}},
-	{"g", "ev", []string{"e:", "k:v"}, "h", []float64{4}},                                   // a tag with an empty value
+	{"g", "hl", []string{"hostgroup:web", "host.zone:b"}, "h9", []float64{2}},                     // tags that merely start with "host": the source is still the host
+	{"g", "inf", []string{"k:v"}, "h", []float64{math.Inf(1)}},                                    // an infinite gauge (the lexer accepts inf)
+	{"g", "ev", []string{"e:", "k:v"}, "h", []float64{4}},                                         // a tag with an empty value
 	{"ms", "th9", append([]string{"gsd_histogram:1_5"}, manyTags[:9]...), "h", []float64{3, 0.5}}, // histogram buckets on a series that already has ten tags
 }
 
@@ -1019,7 +1021,8 @@ func checkMap(ms mapSpec, kinds []string) {
 			sort.Float64s(got)
 			ok := len(got) == len(want)
 			for i := 0; ok && i < len(got); i++ {
-				ok = math.Abs(got[i]-want[i]) <= 1e-6*math.Max(1, math.Abs(want[i]))
+				// an infinite value may be sent as it is or as the largest finite number (what JSON can carry)
+				ok = got[i] == want[i] || (math.IsInf(want[i], 0) && got[i] == math.Copysign(math.MaxFloat64, want[i])) || math.Abs(got[i]-want[i]) <= 1e-6*math.Max(1, math.Abs(want[i]))
 			}
 			if !ok {
 				res.Violate("sub-metric-values "+kind, fmt.Sprintf("backend %s series %+v mask %d: emitted values %v, enabled sub-metrics' values %v", kind, s, ms.Mask, got, want), map[string]any{"spec": ms, "kind": kind, "batch": 0})
